@@ -5,7 +5,7 @@
     whole argument: items hold => feasible point => weak duality => performance <= tau. *)
 From Coq Require Import List QArith Reals Qreals Lra Arith Bool String.
 From PV Require Import Base.IPS Model.Dict Model.Terms Model.Method Model.MethodDump Model.ClassGen
-  Spec.Sem Spec.World Spec.Classes Proofs.DictLemmas Proofs.MethodLemmas Proofs.C04Lemmas Proofs.C03Core Proofs.C03Assembly.
+  Spec.Sem Spec.World Spec.Classes Proofs.DictLemmas Proofs.SemLemmas Proofs.MethodLemmas Proofs.C04Lemmas Proofs.C03Core Proofs.C03Assembly.
 From PV Require Import Gen.Classes.
 Import ListNotations.
 Local Open Scope R_scope.
@@ -27,7 +27,16 @@ Definition fstate_of (par : nat -> Q) (s : mstate) (f : nat) : fstate :=
   mkF "f" par (fun _ => false) pts (filter is_stationary pts) [] None (m_np s) (m_ne s) (List.length pts) 0 (fun _ => 0%Q).
 
 (** evaluated points come from Python dictionaries: unique keys *)
-Definition op_nodup (o : mop) : Prop := match o with MEval _ p => NoDupKeys nat p | _ => True end.
+Definition op_nodup (o : mop) : Prop :=
+  match o with MEval _ p => NoDupKeys nat p | MProx _ p _ => NoDupKeys nat p | _ => True end.
+
+(** what it means for [res] to be the proximal operator (resolvent) of the member a world is made of, in the
+    world's own notion [G] of a genuine sample ([valf]: the value recorded at a point): the proximal point, with
+    (x0 - prox)/gamma and the value there, is a genuine sample.  [hp = false]: no proximal operator is claimed
+    (programs then contain no proximal step on the function, [prox_ok]). *)
+Definition prox_spec {E : ips} (G : E * E * R -> Prop) (valf : E -> R) (hp : bool) (res : R -> E -> E) : Prop :=
+  hp = true -> forall gamma x0, 0 < gamma ->
+    G (res gamma x0, vscal (1 / gamma) (vsub x0 (res gamma x0)), valf (res gamma x0)).
 
 Lemma In_to_samples uid l s :
   In s (to_samples uid l) -> exists t, In t l /\ s_x s = fst (fst t) /\ s_g s = snd (fst t) /\ s_f s = snd t.
@@ -57,24 +66,27 @@ Section Compose.
   Proof.
     induction ops as [|o ops IH]; intros s Hnd Hs; cbn [mrun fold_left]; [exact Hs|].
     inversion Hnd as [|? ? Ho Hnd']; subst. apply (IH (mstep s o) Hnd').
-    intros f t Hin. destruct o as [|g p|g]; cbn [mstep m_samples] in Hin.
+    intros f t Hin. destruct o as [|g p|g|g p gamma]; cbn [mstep m_samples] in Hin.
     - apply (Hs f t Hin).
     - apply in_app_or in Hin as [Hin|[Heq|[]]]; [apply (Hs f t Hin)|]. injection Heq as <- <-. cbn [fst snd].
       split; [exact Ho|]. split; [apply NoDupKeys_single|apply NoDupKeys_single].
     - apply in_app_or in Hin as [Hin|[Heq|[]]]; [apply (Hs f t Hin)|]. injection Heq as <- <-. cbn [fst snd].
       split; [apply NoDupKeys_single|]. split; [apply NoDupKeys_nil|apply NoDupKeys_single].
+    - apply in_app_or in Hin as [Hin|[Heq|[]]]; [apply (Hs f t Hin)|]. injection Heq as <- <-. cbn [fst snd].
+      split; [|split; [apply NoDupKeys_single|apply NoDupKeys_single]].
+      apply NoDupKeys_prune. apply pND_sub; [exact Ho|]. apply NoDupKeys_single.
   Qed.
 
   (** Every sample the class generator sees is well formed and genuine at the values of the run. *)
   Theorem run_state_genuine (par : nat -> Q) ops vs f :
-    mwf ops minit = true -> Forall op_nodup ops ->
+    mwf ops minit = true -> prox_ok W ops = true -> Forall op_nodup ops ->
     let s := mrun ops minit in
     let rho := fst (wrun W ops minit vs) in
     let phi := snd (wrun W ops minit vs) in
     wf_state (fstate_of par s f) /\
     forall sm, In sm (f_points (fstate_of par s f)) -> Gen W f (sval rho phi sm).
   Proof.
-    intros Hwf Hnd s rho phi.
+    intros Hwf Hpx Hnd s rho phi.
     assert (Hpts : forall sm, In sm (f_points (fstate_of par s f)) ->
               wf_sample sm /\ Gen W f (sval rho phi sm)).
     { intros sm Hin. cbn [fstate_of f_points] in Hin.
@@ -83,7 +95,7 @@ Section Compose.
       destruct (recorded_nodup ops minit Hnd (fun _ _ (H : In _ []) => match H with end) f t Ht) as (N1 & N2 & N3).
       split.
       - unfold wf_sample. rewrite Ex, Eg, Ef. auto.
-      - pose proof (proj2 (world_samples_genuine_init W ops vs Hwf f t Ht)) as G.
+      - pose proof (proj2 (world_samples_genuine_init W ops vs Hwf Hpx f t Ht)) as G.
         destruct t as [[x g] fx]. cbn [fst snd] in *. unfold sval, px, pg, pf. rewrite Ex, Eg, Ef. exact G. }
     split.
     - unfold wf_state. split; [|split; [|split]].
@@ -109,6 +121,10 @@ Section Instances.
     Variable xs : E.
     Hypothesis Hxs : veq (dgrad F xs) vzero.
     Hypothesis Hext : respects_veq F.
+    (* optionally: the resolvent of the gradient, res gamma x0 + gamma * grad F (res gamma x0) = x0 *)
+    Variable hp : bool.
+    Variable res : R -> E -> E.
+    Hypothesis Hres : prox_spec (genuine_grad F) (dval F) hp res.
 
     Lemma dfn_orc_genuine (f : nat) (x : E) : genuine_grad F (x, dgrad F x, dval F x).
     Proof. split; [apply veq_refl|reflexivity]. Qed.
@@ -124,23 +140,27 @@ Section Instances.
 
     Definition dfn_world : @world E :=
       mkW (fun _ x => (dgrad F x, dval F x)) (fun _ t => genuine_grad F t) (fun _ => (xs, dval F xs))
-          dfn_orc_genuine dfn_stat_genuine dfn_gen_veq dfn_gen_xveq.
+          dfn_orc_genuine dfn_stat_genuine dfn_gen_veq dfn_gen_xveq
+          (fun _ => hp) (fun _ => res) (fun _ gamma x0 => dval F (res gamma x0))
+          (fun _ gamma x0 H Hg => Hres H gamma x0 Hg).
   End DfnWorld.
 
   (** Any first-order method run on any real mu-strongly convex L-smooth function: every interpolation
       constraint PEPit generates for the recorded samples holds at the values of the run. *)
   Theorem run_satisfies_smooth_strongly_convex (mu L : R) (qmu qL : Q) (F : @dfn E) (xs : E)
-      (Hxs : veq (dgrad F xs) vzero) (Hext : respects_veq F) ops vs :
+      (Hxs : veq (dgrad F xs) vzero) (Hext : respects_veq F)
+      (hp : bool) (res : R -> E -> E) (Hres : prox_spec (genuine_grad F) (dval F) hp res) ops vs :
     0 <= mu < L -> smooth_strongly_convex_member mu L F ->
     Q2R qL = L -> Q2R qmu = mu ->
     mwf ops minit = true -> Forall op_nodup ops ->
-    let W := dfn_world F xs Hxs Hext in
+    let W := dfn_world F xs Hxs Hext hp res Hres in
+    prox_ok W ops = true ->
     let par := fun p => match p with 0%nat => qL | 1%nat => qmu | _ => 0%Q end in
     all_satisfied (fst (wrun W ops minit vs)) (snd (wrun W ops minit vs))
       (run_plan plan_SmoothStronglyConvexFunction (fstate_of par (mrun ops minit) 0)).
   Proof.
-    intros Hr HF HL Hmu Hwf Hnd W par.
-    destruct (run_state_genuine W par ops vs 0 Hwf Hnd) as [Hst Hgen].
+    intros Hr HF HL Hmu Hwf Hnd W Hpx par.
+    destruct (run_state_genuine W par ops vs 0 Hwf Hpx Hnd) as [Hst Hgen].
     apply (c03_SmoothStronglyConvexFunction _ _ mu L F); try assumption.
   Qed.
 
@@ -156,6 +176,10 @@ Section Instances.
     Variable xs : E.
     Hypothesis Hxs : subgrad F xs vzero.
     Hypothesis Hext : fn_respects_veq F.
+    (* optionally: the proximal operator of F *)
+    Variable hp : bool.
+    Variable res : R -> E -> E.
+    Hypothesis Hres : prox_spec (genuine_sub F) (val F) hp res.
 
     Lemma fn_orc_genuine (f : nat) (x : E) : genuine_sub F (x, sel x, val F x).
     Proof. split; [apply Hsel|reflexivity]. Qed.
@@ -178,18 +202,22 @@ Section Instances.
 
     Definition fn_world : @world E :=
       mkW (fun _ x => (sel x, val F x)) (fun _ t => genuine_sub F t) (fun _ => (xs, val F xs))
-          fn_orc_genuine fn_stat_genuine fn_gen_veq fn_gen_xveq.
+          fn_orc_genuine fn_stat_genuine fn_gen_veq fn_gen_xveq
+          (fun _ => hp) (fun _ => res) (fun _ gamma x0 => val F (res gamma x0))
+          (fun _ gamma x0 H Hg => Hres H gamma x0 Hg).
   End FnWorld.
 
   Theorem run_satisfies_convex (F : @fn E) (sel : E -> E) (Hsel : forall x, subgrad F x (sel x))
-      (xs : E) (Hxs : subgrad F xs vzero) (Hext : fn_respects_veq F) ops vs :
+      (xs : E) (Hxs : subgrad F xs vzero) (Hext : fn_respects_veq F)
+      (hp : bool) (res : R -> E -> E) (Hres : prox_spec (genuine_sub F) (val F) hp res) ops vs :
     mwf ops minit = true -> Forall op_nodup ops ->
-    let W := fn_world F sel Hsel xs Hxs Hext in
+    let W := fn_world F sel Hsel xs Hxs Hext hp res Hres in
+    prox_ok W ops = true ->
     all_satisfied (fst (wrun W ops minit vs)) (snd (wrun W ops minit vs))
       (run_plan plan_ConvexFunction (fstate_of (fun _ => 0%Q) (mrun ops minit) 0)).
   Proof.
-    intros Hwf Hnd W.
-    destruct (run_state_genuine W (fun _ => 0%Q) ops vs 0 Hwf Hnd) as [Hst Hgen].
+    intros Hwf Hnd W Hpx.
+    destruct (run_state_genuine W (fun _ => 0%Q) ops vs 0 Hwf Hpx Hnd) as [Hst Hgen].
     apply (c03_ConvexFunction _ _ F); assumption.
   Qed.
 End Instances.
